@@ -553,37 +553,44 @@ inductive CmdErr where
   | book (entry : Nat) (text : String)
   | query (e : QueryErr String)
 
-/-- `okane balance` with every option, as a function of the layout history `π`, the entries, the price-db events
-and the options. -/
-def balanceXCmd (cfg : Cfg String) (leA leK : String → String → Bool) (showAcct : String → String)
-    (showEntry : String → Rat → String) (π : Nat → ProcState → ProcState)
-    (x : List Entry × List (PriceEvent String) × BalOpts) : Outcome CmdErr (List String) :=
-  match processScr π {} 0 x.1 with
-  | .ok st => (balanceXLines cfg leA leK showAcct showEntry x.2.1 x.2.2 st).mapErr CmdErr.query
+/-- what `okane balance` (every option) writes, given how book-keeping ended. -/
+def balanceXOut (cfg : Cfg String) (leA leK : String → String → Bool) (showAcct : String → String)
+    (showEntry : String → Rat → String) (db : List (PriceEvent String)) (o : BalOpts) :
+    Outcome (Nat × BkErrS) ProcState → Outcome CmdErr (List String)
+  | .ok st => (balanceXLines cfg leA leK showAcct showEntry db o st).mapErr CmdErr.query
   | .err (i, e) => .err (.book i (bkErrText leK showEntry e))
   | .panic s => .panic s
   | .fuelOut => .fuelOut
 
-theorem balanceXCmd_det {cfg : Cfg String} (hord : OrdOK cfg.ord) {leA leK : String → String → Bool}
+theorem balanceXOut_eq {cfg : Cfg String} (hord : OrdOK cfg.ord) {leA leK : String → String → Bool}
     (hoA : KeyOrder leA) (hoK : KeyOrder leK) (showAcct : String → String) (showEntry : String → Rat → String)
-    {π₁ π₂ : Nat → ProcState → ProcState} (h1 : Relayout π₁) (h2 : Relayout π₂)
-    (x : List Entry × List (PriceEvent String) × BalOpts) :
-    balanceXCmd cfg leA leK showAcct showEntry π₁ x = balanceXCmd cfg leA leK showAcct showEntry π₂ x := by
-  have h := processScr_meq h1 h2 x.1 ProcEq.init 0
-  unfold balanceXCmd
-  orel_cases h, processScr π₁ {} 0 x.1, processScr π₂ {} 0 x.1
-  · simp only [balanceXLines_meq hord hoA hoK showAcct showEntry x.2.1 x.2.2 h]
-  · exact h.elim
-  · exact h.elim
-  · exact h.elim
-  · exact h.elim
+    (db : List (PriceEvent String)) (o : BalOpts) {x y : Outcome (Nat × BkErrS) ProcState}
+    (h : ORel PErrEq ProcEq x y) :
+    balanceXOut cfg leA leK showAcct showEntry db o x = balanceXOut cfg leA leK showAcct showEntry db o y := by
+  cases x <;> cases y <;> simp only [ORel] at h <;> try exact h.elim
+  · simp only [balanceXOut, balanceXLines_meq hord hoA hoK showAcct showEntry db o h]
   · rename_i a b
     obtain ⟨i, e⟩ := a
     obtain ⟨i', e'⟩ := b
     obtain ⟨e1, e2⟩ := h
     simp only at e1 e2; subst e1
-    simp only [e2.text hoK showEntry]
-  all_goals first | exact h.elim | (subst h; rfl) | rfl | trivial
+    simp only [balanceXOut, e2.text hoK showEntry]
+  · simp only [balanceXOut, h]
+  · rfl
+
+/-- `okane balance` with every option, as a function of the layout history `π`, the entries, the price-db events
+and the options. -/
+def balanceXCmd (cfg : Cfg String) (leA leK : String → String → Bool) (showAcct : String → String)
+    (showEntry : String → Rat → String) (π : Nat → ProcState → ProcState)
+    (x : List Entry × List (PriceEvent String) × BalOpts) : Outcome CmdErr (List String) :=
+  balanceXOut cfg leA leK showAcct showEntry x.2.1 x.2.2 (processScr π {} 0 x.1)
+
+theorem balanceXCmd_det {cfg : Cfg String} (hord : OrdOK cfg.ord) {leA leK : String → String → Bool}
+    (hoA : KeyOrder leA) (hoK : KeyOrder leK) (showAcct : String → String) (showEntry : String → Rat → String)
+    {π₁ π₂ : Nat → ProcState → ProcState} (h1 : Relayout π₁) (h2 : Relayout π₂)
+    (x : List Entry × List (PriceEvent String) × BalOpts) :
+    balanceXCmd cfg leA leK showAcct showEntry π₁ x = balanceXCmd cfg leA leK showAcct showEntry π₂ x :=
+  balanceXOut_eq hord hoA hoK showAcct showEntry x.2.1 x.2.2 (processScr_meq h1 h2 x.1 ProcEq.init 0)
 
 /-- `okane eval EXPR` after book-keeping: the printed amount. -/
 def evalLine (cfg : Cfg String) (leA leK : String → String → Bool) (showEntry : String → Rat → String)
@@ -627,34 +634,41 @@ structure EvalIn where
   date : Date
   exchange : Option String
 
-/-- `okane eval` as a function of the layout history and the inputs. -/
-def evalCmd (cfg : Cfg String) (leA leK : String → String → Bool) (showEntry : String → Rat → String)
-    (π : Nat → ProcState → ProcState) (x : EvalIn) : Outcome CmdErr String :=
-  match processScr π {} 0 x.entries with
-  | .ok st => (evalLine cfg leA leK showEntry x.db x.expr x.date x.exchange st).mapErr CmdErr.query
+/-- what `okane eval` writes, given how book-keeping ended. -/
+def evalOut (cfg : Cfg String) (leA leK : String → String → Bool) (showEntry : String → Rat → String)
+    (db : List (PriceEvent String)) (expr : VExpr) (date : Date) (exchange : Option String) :
+    Outcome (Nat × BkErrS) ProcState → Outcome CmdErr String
+  | .ok st => (evalLine cfg leA leK showEntry db expr date exchange st).mapErr CmdErr.query
   | .err (i, e) => .err (.book i (bkErrText leK showEntry e))
   | .panic s => .panic s
   | .fuelOut => .fuelOut
 
-theorem evalCmd_det {cfg : Cfg String} (hord : OrdOK cfg.ord) {leA leK : String → String → Bool}
+theorem evalOut_eq {cfg : Cfg String} (hord : OrdOK cfg.ord) {leA leK : String → String → Bool}
     (hoA : KeyOrder leA) (hoK : KeyOrder leK) (showEntry : String → Rat → String)
-    {π₁ π₂ : Nat → ProcState → ProcState} (h1 : Relayout π₁) (h2 : Relayout π₂) (x : EvalIn) :
-    evalCmd cfg leA leK showEntry π₁ x = evalCmd cfg leA leK showEntry π₂ x := by
-  have h := processScr_meq h1 h2 x.entries ProcEq.init 0
-  unfold evalCmd
-  orel_cases h, processScr π₁ {} 0 x.entries, processScr π₂ {} 0 x.entries
-  · simp only [evalLine_meq hord hoA hoK showEntry x.db x.expr x.date x.exchange h]
-  · exact h.elim
-  · exact h.elim
-  · exact h.elim
-  · exact h.elim
+    (db : List (PriceEvent String)) (expr : VExpr) (date : Date) (exchange : Option String)
+    {x y : Outcome (Nat × BkErrS) ProcState} (h : ORel PErrEq ProcEq x y) :
+    evalOut cfg leA leK showEntry db expr date exchange x = evalOut cfg leA leK showEntry db expr date exchange y := by
+  cases x <;> cases y <;> simp only [ORel] at h <;> try exact h.elim
+  · simp only [evalOut, evalLine_meq hord hoA hoK showEntry db expr date exchange h]
   · rename_i a b
     obtain ⟨i, e⟩ := a
     obtain ⟨i', e'⟩ := b
     obtain ⟨e1, e2⟩ := h
     simp only at e1 e2; subst e1
-    simp only [e2.text hoK showEntry]
-  all_goals first | exact h.elim | (subst h; rfl) | rfl | trivial
+    simp only [evalOut, e2.text hoK showEntry]
+  · simp only [evalOut, h]
+  · rfl
+
+/-- `okane eval` as a function of the layout history and the inputs. -/
+def evalCmd (cfg : Cfg String) (leA leK : String → String → Bool) (showEntry : String → Rat → String)
+    (π : Nat → ProcState → ProcState) (x : EvalIn) : Outcome CmdErr String :=
+  evalOut cfg leA leK showEntry x.db x.expr x.date x.exchange (processScr π {} 0 x.entries)
+
+theorem evalCmd_det {cfg : Cfg String} (hord : OrdOK cfg.ord) {leA leK : String → String → Bool}
+    (hoA : KeyOrder leA) (hoK : KeyOrder leK) (showEntry : String → Rat → String)
+    {π₁ π₂ : Nat → ProcState → ProcState} (h1 : Relayout π₁) (h2 : Relayout π₂) (x : EvalIn) :
+    evalCmd cfg leA leK showEntry π₁ x = evalCmd cfg leA leK showEntry π₂ x :=
+  evalOut_eq hord hoA hoK showEntry x.db x.expr x.date x.exchange (processScr_meq h1 h2 x.entries ProcEq.init 0)
 
 end Cmd
 
